@@ -82,6 +82,8 @@ public:
         future_conv *_this = static_cast<future_conv *>(me);
         promise<To> p = std::move(_this->_prom);
         try {
+            //the source carries no value, but it can carry an exception (or a broken promise)
+            *_this->_fut;
             if constexpr(std::is_void_v<To>) {
                 (ctx->*fn)();
                 return p();
@@ -117,6 +119,8 @@ public:
         future_conv *_this = static_cast<future_conv *>(me);
         promise<To> p = std::move(_this->_prom);
         try {
+            //the source carries no value, but it can carry an exception (or a broken promise)
+            *_this->_fut;
             return (ctx->*fn)(p);
         } catch (...) {
             return p(std::current_exception());
